@@ -160,6 +160,17 @@ func c20Forms() []formCase {
 		add("struct-names", "struct-names/"+k, pre+inj("B", "B{}", "NewA, NewPA, wire.Struct(new(B), "+names[k]+")"))
 		add("fields-names", "fields-names/"+k, pre+inj("A", "A{}", "NewB, NewPA, wire.Value(A{X: 2}), wire.FieldsOf(new(B), "+names[k]+")")+"\n")
 	}
+	// ---- something is missing below a field selection, a binding, a struct provider: the
+	// planner gives up on the parent and has to give up on what hangs on it as well
+	{
+		pre := "type DSN string\n\ntype Port int\n\ntype Config struct{ Port Port }\n\nfunc NewConfig(d DSN) *Config { return &Config{Port: Port(len(d))} }\n\ntype Conf struct{ Port Port }\n\nfunc NewConf(d DSN) Conf { return Conf{} }\n\ntype PortUser struct{ P *Port }\n\ntype Porter interface{ PortNumber() int }\n\nfunc (Port) PortNumber() int { return 0 }\n\n"
+		add("missing-below", "missing-below/fieldsof-pointer-parent", pre+inj("Port", "0", "NewConfig, wire.FieldsOf(new(*Config), \"Port\")"))
+		add("missing-below", "missing-below/fieldsof-pointer-to-field", pre+inj("*Port", "nil", "NewConfig, wire.FieldsOf(new(*Config), \"Port\")"))
+		add("missing-below", "missing-below/fieldsof-value-parent", pre+inj("Port", "0", "NewConf, wire.FieldsOf(new(Conf), \"Port\")"))
+		add("missing-below", "missing-below/fieldsof-then-struct", pre+inj("PortUser", "PortUser{}", "NewConfig, wire.FieldsOf(new(*Config), \"Port\"), wire.Struct(new(PortUser), \"*\")"))
+		add("missing-below", "missing-below/fieldsof-then-bind", pre+inj("Porter", "nil", "NewConfig, wire.FieldsOf(new(*Config), \"Port\"), wire.Bind(new(Porter), new(Port))"))
+		add("missing-below", "missing-below/struct-then-fieldsof", pre+inj("Port", "0", "wire.Struct(new(Conf), \"*\"), wire.FieldsOf(new(Conf), \"Port\")"))
+	}
 	// ---- providers declared outside the user's sources (standard library): the diagnostic must
 	// still point into the user's file
 	foreign := map[string]string{
